@@ -6,7 +6,7 @@ META = dict(
     engine="E1",
     level="model_checking",
     text="ValidationCache models a node over a fixed transaction universe: mempool acceptance and test-accept (PolicyScriptChecks under the STANDARD flags, "
-         "ConsensusScriptChecks under the tip's flags, which store), block connection (consults the caches and erases what it hits), TestBlockValidity "
+         "ConsensusScriptChecks under the tip's flags, which store), block connection (consults the caches, stores nothing; an 'erased' cuckoo-cache entry stays visible), TestBlockValidity "
          "(the only block path that stores), and tip invalidation with mempool resurrection; the script-execution cache keyed by (wtxid, flags) and the "
          "signature cache keyed by (signature, public key, digest) exactly as CheckInputScripts / CachingTransactionSignatureChecker use them. Block flags "
          "depend on the height (regtest -testactivationheight), so the same spend is valid before and invalid after an activation; witness twins share a "
@@ -107,9 +107,9 @@ def run(ctx):
         kept[name] = scenario(ctx, binary, name, per_action, per_verdict)
     if ctx.tier != "quick":
         # random walks over the whole universe (two activation heights)
-        kept["all"] = scenario(ctx, binary, "all", per_action, per_verdict, simulate=(300, 14))
+        kept["all"] = scenario(ctx, binary, "all", per_action, per_verdict, simulate=(60, 12))
         # cross-checks: the same behaviours on a node with minimal caches, and on a node with script-check worker threads
-        for name in ("flags_t", "wit_t", "sig_t", "all"):
+        for name in ("flags_t", "sig_t", "all"):
             paths, upath = kept[name]
             replay(ctx, binary, name, paths, upath, variant=("nocache",))
             replay(ctx, binary, name, paths, upath, variant=("threads",))
